@@ -315,8 +315,48 @@ def StrictSubclass(cls, base_cls):
     )
 
 
+def _composite(t, kind):
+    handler = getattr(t, "_handler", None)
+    return handler if getattr(handler, "_composite_kind", None) == kind else None
+
+
+def _is_subtype_of(t1, t2):
+    """Whether t1 is the same as or more specific than t2.
+
+    Unions and intersections are decomposed into their members: a union is
+    below t2 if all its members are, t1 is below an intersection if it is
+    below all its members, t1 is below a union if it is below some member,
+    and an intersection is below t2 if some member is.
+    """
+    if u := _composite(t1, "union"):
+        return all(_is_subtype_of(t, t2) for t in u.types)
+    elif i := _composite(t2, "intersection"):
+        return all(_is_subtype_of(t1, t) for t in i.types)
+    elif u := _composite(t2, "union"):
+        return any(_is_subtype_of(t1, t) for t in u.types)
+    elif i := _composite(t1, "intersection"):
+        return any(_is_subtype_of(t, t2) for t in i.types)
+    else:
+        return typeorder(t1, t2) in (Order.LESS, Order.SAME)
+
+
+def _composite_order(t1, t2):
+    below = _is_subtype_of(t1, t2)
+    above = _is_subtype_of(t2, t1)
+    if below and above:
+        return Order.SAME
+    elif below:
+        return Order.LESS
+    elif above:
+        return Order.MORE
+    else:
+        return Order.NONE
+
+
 @parametrized_class_check
 class Union:
+    _composite_kind = "union"
+
     def __init__(self, *types):
         self.__args__ = self.types = types
 
@@ -331,16 +371,7 @@ class Union:
     def __type_order__(self, other):
         if other is Union:
             return Order.LESS
-        classes = self.types
-        compare = [
-            x for t in classes if (x := typeorder(t, other)) is not Order.NONE
-        ]
-        if not compare:
-            return Order.NONE
-        elif any(x is Order.MORE or x is Order.SAME for x in compare):
-            return Order.MORE
-        else:
-            return Order.LESS
+        return _composite_order(Union[self.types], other)
 
     def __is_supertype__(self, other):
         return any(subclasscheck(other, t) for t in self.types)
@@ -368,6 +399,8 @@ class Union:
 
 @parametrized_class_check
 class Intersection:
+    _composite_kind = "intersection"
+
     def __init__(self, *types):
         self.__args__ = self.types = types
 
@@ -382,16 +415,7 @@ class Intersection:
     def __type_order__(self, other):
         if other is Intersection:
             return Order.LESS
-        classes = self.types
-        compare = [
-            x for t in classes if (x := typeorder(t, other)) is not Order.NONE
-        ]
-        if not compare:
-            return Order.NONE
-        elif any(x is Order.LESS or x is Order.SAME for x in compare):
-            return Order.LESS
-        else:
-            return Order.MORE
+        return _composite_order(Intersection[self.types], other)
 
     def __is_supertype__(self, other):
         return all(subclasscheck(other, t) for t in self.types)
